@@ -15,6 +15,17 @@ _TEST = (
     "        ):\n"
     "            return None\n\n"
 )
+_SIG = "def safe_join(directory: str, *pathnames: str) -> str | None:"
+# a predicate helper in early-return style, negated polarity (True = stays inside)
+_INSIDE = (
+    "def _stays_inside(name: str) -> bool:\n"
+    "    for sep in _os_alt_seps:\n"
+    "        if sep in name:\n"
+    "            return False\n\n"
+    "    if os.path.isabs(name) or name.startswith(\"/\"):\n"
+    "        return False\n\n"
+    "    return name != \"..\" and not name.startswith(\"../\")\n\n\n"
+)
 _SUB = 'filename = str(_filename_ascii_strip_re.sub("", "_".join(filename.split()))).strip(\n        "._"\n    )'
 
 MUTANTS = [
@@ -29,7 +40,20 @@ MUTANTS = [
     {"name": "last-component-joined-unchecked", "expect": "R14.1", "edits": [(S, "    return posixpath.join(*parts)", "    return posixpath.join(*parts, pathnames[-1])")]},
     {"name": "reject-skips-instead-of-refusing", "expect": "R14.1", "edits": [(S, "        ):\n            return None\n\n        parts.append(filename)", "        ):\n            pass\n\n        parts.append(filename)")]},
     {"name": "test-other-variable", "expect": "R14.1", "edits": [(S, '            or filename == ".."\n            or filename.startswith("../")\n', '            or directory == ".."\n            or directory.startswith("../")\n')]},
+    {"name": "conditional-normpath-inverted", "expect": "R14.1", "edits": [(S, _NORM, '        filename = posixpath.normpath(filename) if filename == "" else filename\n\n')]},
+    {"name": "early-return-helper-forgets-dotdot-slash", "expect": "R14.1", "edits": [
+        (S, _TEST, "        if not _stays_inside(filename):\n            return None\n\n"),
+        (S, _SIG, _INSIDE.replace(' and not name.startswith("../")', "") + _SIG),
+    ]},
+    {"name": "early-return-helper-separator-loop-skips", "expect": "R14.1", "edits": [
+        (S, _TEST, "        if not _stays_inside(filename):\n            return None\n\n"),
+        (S, _SIG, _INSIDE.replace("            return False\n\n    if os.path.isabs", "            break\n\n    if os.path.isabs") + _SIG),
+    ]},
+    {"name": "flag-computed-before-normpath", "expect": "R14.1", "edits": [(S, _NORM + _TEST, _TEST.replace("        if (\n", "        rejected = (\n").replace("        ):\n            return None\n\n", "        )\n\n") + _NORM + "        if rejected:\n            return None\n\n")]},
     # ---- R14.2
+    {"name": "expandvars-after-containment-check", "expect": "R14.2", "edits": [(U, "    return send_file(path_str, environ, **kwargs)\n\n\ndef import_string", "    return send_file(os.path.expandvars(path_str), environ, **kwargs)\n\n\ndef import_string")]},
+    {"name": "directory-loader-decodes-after-check", "expect": "R14.2", "edits": [(M, "                return os.path.basename(path), self._opener(path)", '                return os.path.basename(path), self._opener(path.replace("%2e", "."))')]},
+    {"name": "package-loader-normalises-after-check", "expect": "R14.2", "edits": [(M, "                resource = reader.open_resource(path)", "                resource = reader.open_resource(posixpath.normpath(path + \"/\"))")]},
     {"name": "directory-loader-plain-join", "expect": "R14.2", "edits": [(M, "                path = safe_join(directory, path)\n\n                if path is None:\n                    return None, None\n", "                path = posixpath.join(directory, path)\n")]},
     {"name": "send-from-directory-serves-raw-join", "expect": "R14.2", "edits": [(U, "    return send_file(path_str, environ, **kwargs)\n\n\ndef import_string", "    return send_file(os.path.join(directory, path), environ, **kwargs)\n\n\ndef import_string")]},
     {"name": "package-loader-opens-request-path", "expect": "R14.2", "edits": [(M, "            path = safe_join(package_path, path)\n\n            if path is None:\n                return None, None\n\n            basename = posixpath.basename(path)", "            checked = safe_join(package_path, path)\n\n            if checked is None:\n                return None, None\n\n            basename = posixpath.basename(path)")]},
@@ -58,6 +82,13 @@ TWINS = [
         (S, _TEST, "        if _unsafe_component(filename):\n            return None\n\n"),
         (S, "def safe_join(directory: str, *pathnames: str) -> str | None:", 'def _unsafe_component(name: str) -> bool:\n    return (\n        any(sep in name for sep in _os_alt_seps)\n        or os.path.isabs(name)\n        or name.startswith("/")\n        or name == ".."\n        or name.startswith("../")\n    )\n\n\ndef safe_join(directory: str, *pathnames: str) -> str | None:'),
     ]},
+    {"name": "safe-join-early-return-helper-negated-and-conditional-normpath", "edits": [
+        (S, _NORM + _TEST, "        filename = filename and posixpath.normpath(filename)\n\n        if not _stays_inside(filename):\n            return None\n\n"),
+        (S, _SIG, _INSIDE + _SIG),
+    ]},
+    {"name": "safe-join-conditional-expression-normpath", "edits": [(S, _NORM, '        filename = filename if filename == "" else posixpath.normpath(filename)\n\n')]},
+    {"name": "safe-join-flag-variable", "edits": [(S, _TEST, _TEST.replace("        if (\n", "        rejected = (\n").replace("        ):\n            return None\n\n", "        )\n\n        if rejected:\n            return None\n\n"))]},
+    {"name": "send-from-directory-root-path-selection", "edits": [(U, '    if "_root_path" in kwargs:\n        path_str = os.path.join(kwargs["_root_path"], path_str)\n', '    served = os.path.join(kwargs["_root_path"], path_str) if "_root_path" in kwargs else path_str\n    path_str = os.fspath(served)\n')]},
     {"name": "safe-join-normalised-into-new-name", "edits": [(S, _NORM + _TEST + "        parts.append(filename)\n", (_NORM + _TEST + "        parts.append(cleaned)\n").replace("filename = posixpath.normpath(filename)", "cleaned = posixpath.normpath(filename)").replace('        if filename != "":', '        cleaned = filename\n\n        if filename != "":').replace("in filename for", "in cleaned for").replace("isabs(filename)", "isabs(cleaned)").replace("or filename.", "or cleaned.").replace("or filename ==", "or cleaned =="))]},
     {"name": "directory-loader-early-return-style", "edits": [(M, "            if path is not None:\n                path = safe_join(directory, path)\n\n                if path is None:\n                    return None, None\n            else:\n                path = directory\n", "            if path is None:\n                path = directory\n            else:\n                path = safe_join(directory, path)\n\n            if path is None:\n                return None, None\n")]},
     {"name": "send-from-directory-not-none-style", "edits": [(U, "    if path_str is None:\n        raise NotFound()\n\n    # Flask will pass", "    if path_str is not None:\n        pass\n    else:\n        raise NotFound()\n\n    # Flask will pass")]},
